@@ -30,3 +30,67 @@ def viObject : SolverSem VICfg AITB.MDP.VF AITB.MDP.MDP AITB.MDP.VIOut where
     (cfg, out.vf, out)
 
 end AITB.Hidden
+
+/-! ### more solver objects, as written (round 4) -/
+namespace AITB.Hidden
+
+/-- `MDP::PolicyEvaluation<M>`: the model is bound at construction (`model_`), `vParameter_` is the configured start,
+    `v1_` the scratch.  As written: the first statement of the call that touches `v1_` assigns it (zeros, or a copy of
+    `vParameter_` when that has S entries), the loop works on it, and `return std::make_tuple(…, std::move(v1_), …)` leaves
+    the member empty. -/
+structure PECfg where
+  m : AITB.MDP.MDP
+  rep : AITB.MDP.Rep
+  horizon : Nat
+  tol : Rat
+  vParameter : Option AITB.MDP.Vec
+
+def peStart (c : PECfg) : AITB.MDP.Vec :=
+  match c.vParameter with
+  | none => AITB.MDP.mkVec c.m.S (fun _ => 0)
+  | some v => if v.size != c.m.S then AITB.MDP.mkVec c.m.S (fun _ => 0) else v
+
+def peObject : SolverSem PECfg AITB.MDP.Vec AITB.MDP.Mat AITB.MDP.PEOut where
+  call := fun c _v1 p =>
+    let useTol := AITB.MDP.useTolerance c.tol
+    let st := AITB.MDP.peLoop c.m c.rep (AITB.MDP.immRewards c.m c.rep) useTol c.tol p c.horizon
+                ⟨peStart c, AITB.MDP.makeQ c.m.S c.m.A, c.tol * 2, 0⟩
+    (c, #[], ⟨if useTol then st.variation else 0, st.v, st.q, st.timestep⟩)
+
+/-- `POMDP::LinearSupport::agenda_` — the one scratch member of a solver that a call READS before writing: vertices are pushed
+    onto whatever the member holds.  The loop of `operator()` (one horizon step), abstracted over what the vertex and support
+    computations return; `Gen/C16Rng.lsOnlyExitIsEmptyTest` pins that the loop is left only through `if (agenda_.size() == 0) break;`.
+    `extend = none` stands for an exception escaping the step (allocation failure inside `findVerticesNaive`): the call is then
+    left with whatever the agenda held. -/
+structure LSOps (V G X : Type) where
+  init : X → G × List V                          -- corner supports and the vertices they create
+  examine : X → G → List V → List V → List V     -- `agenda_.push(newVertex)` for each untried vertex whose error exceeds the tolerance (4th argument: agenda before)
+  pick : List V → Option (V × List V)            -- `agenda_.top()` / `agenda_.pop()`; none iff empty
+  prune : V → List V → List V                    -- `agenda_.erase(h)` for the entries made obsolete by best's support
+  extend : X → G → V → Option (G × List V)       -- new vertices against `goodSupports`, then `goodSupports.push_back(*best.support)`
+
+inductive LSExit (G : Type) where
+  | done (g : G)
+  | threw
+  | outOfFuel
+  deriving Repr, DecidableEq
+
+def lsLoop {V G X} (ops : LSOps V G X) (x : X) : Nat → G → List V → List V → LSExit G × List V
+  | 0, _, _, agenda => (.outOfFuel, agenda)
+  | f+1, g, verts, agenda =>
+    let agenda1 := ops.examine x g verts agenda
+    match ops.pick agenda1 with
+    | none => (.done g, agenda1)
+    | some (best, rest) =>
+      let rest' := ops.prune best rest
+      match ops.extend x g best with
+      | none => (.threw, rest')
+      | some (g', verts') => lsLoop ops x f g' verts' rest'
+
+/-- the object: scratch = `agenda_`; `fuel` bounds the (unbounded) `do … while (true)` in the model only -/
+def lsObject {V G X} (ops : LSOps V G X) (fuel : Nat) : SolverSem Unit (List V) X (LSExit G) where
+  call := fun c agenda x =>
+    let r := lsLoop ops x fuel (ops.init x).1 (ops.init x).2 agenda
+    (c, r.2, r.1)
+
+end AITB.Hidden
